@@ -217,6 +217,88 @@ async fn exec(store: &Store, gate: &Arc<Gate>, kind: &str, op: &Value) -> Value 
             }
             json!({"ok": null})
         }
+        "serve_all" => {
+            // what `xs serve` starts (main::serve), minus the trace logger: the three serve
+            // loops, each on its own engine clone
+            let engine = xs::nu::Engine::new().unwrap();
+            {
+                let (st, en) = (store.clone(), engine.clone());
+                tokio::spawn(async move {
+                    let _ = xs::generators::serve(st, en).await;
+                });
+            }
+            {
+                let (st, en) = (store.clone(), engine.clone());
+                tokio::spawn(async move {
+                    let _ = xs::handlers::serve(st, en).await;
+                });
+            }
+            {
+                let (st, en) = (store.clone(), engine.clone());
+                tokio::spawn(async move {
+                    let _ = xs::commands::serve(st, en).await;
+                });
+            }
+            tokio::time::sleep(std::time::Duration::from_millis(op["wait_ms"].as_u64().unwrap_or(250))).await;
+            json!({"ok": null})
+        }
+        "append_content" => {
+            // content into the CAS first, then the frame (what `xs append` / `.append` do)
+            let mut fv = op.clone();
+            let content = op["content"].as_str().unwrap_or("");
+            let hash = match store.cas_insert(content).await {
+                Ok(h) => h,
+                Err(e) => return json!({"err": format!("cas:{}", e)}),
+            };
+            fv["hash"] = json!(hash.to_string());
+            let frame = match frame_from_json(&fv) {
+                Ok(f) => f,
+                Err(e) => return json!({"err": format!("bad-op:{}", e)}),
+            };
+            match store.append(frame) {
+                Ok(f) => json!({"ok": frame_json(&f)}),
+                Err(e) => json!({"err": classify_err(&e.to_string())}),
+            }
+        }
+        "settle" => {
+            // wait until the stream has been quiet for `ms` (at most `max_ms`)
+            let quiet = std::time::Duration::from_millis(op["ms"].as_u64().unwrap_or(200));
+            let hard = std::time::Instant::now() + std::time::Duration::from_millis(op["max_ms"].as_u64().unwrap_or(5000));
+            let mut last = store.read_sync(None, None, None).count();
+            let mut since = std::time::Instant::now();
+            loop {
+                tokio::time::sleep(std::time::Duration::from_millis(20)).await;
+                let n = store.read_sync(None, None, None).count();
+                if n != last {
+                    last = n;
+                    since = std::time::Instant::now();
+                }
+                if since.elapsed() >= quiet || std::time::Instant::now() >= hard {
+                    break;
+                }
+            }
+            json!({"ok": last})
+        }
+        "stream" => {
+            // every stored frame, with its content when it is small text
+            let mut out = Vec::new();
+            for f in store.read_sync(None, None, None) {
+                let mut v = frame_json(&f);
+                if let Some(h) = &f.hash {
+                    if let Ok(b) = store.cas_read(h).await {
+                        v["content"] = match String::from_utf8(b) {
+                            Ok(s) if s.len() < 4096 => json!(s),
+                            _ => json!(null),
+                        };
+                        v["content_present"] = json!(true);
+                    } else {
+                        v["content_present"] = json!(false);
+                    }
+                }
+                out.push(v);
+            }
+            json!({"ok": out})
+        }
         "serve" => {
             let engine = xs::nu::Engine::new().unwrap();
             let st = store.clone();
